@@ -177,6 +177,16 @@ theorem C12_is_convertible_as_written (k1 k2 : Kind) :
     (implicitlyConvertible k1 k2 = true → k1 ≠ k2 → scalarAccepts k1 k2 = true) :=
   ⟨(tableAgrees_iff _ _).mp C12_is_convertible_table_is_model k1 k2, implicit_within_annotation k1 k2⟩
 
+/-- Where `Value::convert_to` converts — a pair `is_convertible_to` lists as written, which is how a function's parameter
+    and result kinds and an option target take a value — the rule of the property gives a value, of the target kind:
+    what the check demands there (`convarg`, `convres`) is never an error of the rule itself. -/
+theorem C12_written_convertible_pairs_have_a_value (ci : ConvImpl) (k1 k2 : Kind) (v : Val)
+    (h : (convertiblePairs.contains (k1.variantName, k2.variantName) || (convertibleDefaultIsEquality && k1 == k2)) = true)
+    (hv : valOfKind k1 v = true) :
+    ∃ y, convertScalar ci k1 k2 v = .ok y ∧ valOfKind k2 y = true := by
+  rw [(C12_is_convertible_as_written k1 k2).1] at h
+  cases k1 <;> cases k2 <;> cases v <;> simp_all [valOfKind, convertScalar, implicitlyConvertible]
+
 end written
 
 /-! ### non-vacuity -/
